@@ -154,8 +154,9 @@ func (l *staticLeaf) Static() bool {
 // regexLeaf is a leaf with a regex match style.
 type regexLeaf struct {
 	baseLeaf
-	regexp *regexp.Regexp // The regexp for the leaf.
-	binds  []string       // The list of bind parameters.
+	regexp  *regexp.Regexp // The regexp for the leaf.
+	binds   []string       // The list of bind parameters.
+	indexes []int          // The sub-match index of each bind parameter, nil when they are consecutive.
 }
 
 func (*regexLeaf) getMatchStyle() MatchStyle {
@@ -173,7 +174,7 @@ func (l *regexLeaf) match(segment string, params Params, header http.Header) boo
 	}
 
 	for i, bind := range l.binds {
-		params[bind] = submatches[i+1]
+		params[bind] = submatches[submatchIndex(l.indexes, i)]
 	}
 	return true
 }
@@ -284,10 +285,14 @@ func checkMatchStyleAll(s *Segment) (bind string, capture int, ok bool) {
 }
 
 // constructMatchStyleRegex constructs a regexp from the Segment (having the
-// assumption that it's regex match style), along with bind parameter names in
-// the same order as regexp's sub-matches.
-func constructMatchStyleRegex(s *Segment) (*regexp.Regexp, []string, error) {
+// assumption that it's regex match style), along with bind parameter names and
+// the index of the regexp's sub-match that belongs to each of them. The indexes
+// are nil when they are consecutive, i.e. unless a bind parameter's own regex
+// contains groups.
+func constructMatchStyleRegex(s *Segment) (*regexp.Regexp, []string, []int, error) {
 	binds := make([]string, 0, len(s.Elements))
+	indexes := make([]int, 0, len(s.Elements))
+	next := 1 // The index of the next group to be opened.
 	buf := bytes.NewBufferString("^")
 	for _, e := range s.Elements {
 		if e.Ident != nil {
@@ -297,18 +302,29 @@ func constructMatchStyleRegex(s *Segment) (*regexp.Regexp, []string, error) {
 			continue
 		} else if e.BindIdent != nil {
 			binds = append(binds, *e.BindIdent)
+			indexes = append(indexes, next)
+			next++
 			buf.WriteString("(.+)")
 			continue
 		} else if e.BindParameters == nil || len(e.BindParameters.Parameters) == 0 {
-			return nil, nil, errors.Errorf("empty segment element in position %d", e.Pos.Offset)
+			return nil, nil, nil, errors.Errorf("empty segment element in position %d", e.Pos.Offset)
 		}
 
 		for _, p := range e.BindParameters.Parameters {
 			if p.Value.Regex == nil {
-				return nil, nil, errors.Errorf("segment has non-regex literal in position %d", e.Pos.Offset)
+				return nil, nil, nil, errors.Errorf("segment has non-regex literal in position %d", e.Pos.Offset)
+			}
+
+			// The regex must be valid on its own, and its own groups shift the index of
+			// every bind parameter that follows.
+			own, err := regexp.Compile(*p.Value.Regex)
+			if err != nil {
+				return nil, nil, nil, errors.Wrapf(err, "compile regexp of bind parameter %q near position %d", p.Ident, s.Pos.Offset)
 			}
 
 			binds = append(binds, p.Ident)
+			indexes = append(indexes, next)
+			next += 1 + own.NumSubexp()
 			buf.WriteString("(")
 			buf.WriteString(*p.Value.Regex)
 			buf.WriteString(")")
@@ -318,9 +334,21 @@ func constructMatchStyleRegex(s *Segment) (*regexp.Regexp, []string, error) {
 
 	re, err := regexp.Compile(buf.String())
 	if err != nil {
-		return nil, nil, errors.Wrapf(err, "compile regexp near position %d", s.Pos.Offset)
+		return nil, nil, nil, errors.Wrapf(err, "compile regexp near position %d", s.Pos.Offset)
 	}
-	return re, binds, nil
+	if next == len(binds)+1 {
+		indexes = nil
+	}
+	return re, binds, indexes, nil
+}
+
+// submatchIndex returns the index of the sub-match that belongs to the i-th
+// bind parameter.
+func submatchIndex(indexes []int, i int) int {
+	if indexes == nil {
+		return i + 1
+	}
+	return indexes[i]
 }
 
 // getParentBindSet returns a set of all bind parameters defined in parent
@@ -388,7 +416,7 @@ func newLeaf(parent Tree, r *Route, s *Segment, h Handler) (Leaf, error) {
 	}
 
 	// The only remaining style is regex.
-	re, binds, err := constructMatchStyleRegex(s)
+	re, binds, indexes, err := constructMatchStyleRegex(s)
 	if err != nil {
 		return nil, err
 	}
@@ -406,7 +434,8 @@ func newLeaf(parent Tree, r *Route, s *Segment, h Handler) (Leaf, error) {
 			segment: s,
 			handler: h,
 		},
-		regexp: re,
-		binds:  binds,
+		regexp:  re,
+		binds:   binds,
+		indexes: indexes,
 	}, nil
 }
